@@ -206,6 +206,7 @@ class Prog:
             trees = {name: m.tree for name, m in self.mods.items()}
             n_ann = sum(normalise.plain_assignments(t) for t in trees.values())
             n_any = sum(normalise.any_to_loop(t) for t in trees.values())
+            n_gl = sum(normalise.getters_to_lambdas(t) for t in trees.values())
             n_mf = sum(normalise.map_filter_to_comprehensions(t) for t in trees.values())
             n_ci = sum(normalise.expand_container_idioms(t) for t in trees.values())
             n_cg = sum(normalise.continue_guards_to_branches(t) for t in trees.values())
@@ -214,6 +215,7 @@ class Prog:
             self.norm_stats["annotated_assignments"] = n_ann
             self.norm_stats["any_tests_to_search_loops"] = n_any
             self.norm_stats["map_filter_to_comprehensions"] = n_mf
+            self.norm_stats["getters_to_lambdas"] = n_gl
             self.norm_stats["container_idioms_expanded"] = n_ci
             self.norm_stats["continue_guards_to_branches"] = n_cg
             self.norm_stats["conditions_to_negation_normal_form"] = n_nnf
@@ -222,6 +224,8 @@ class Prog:
             self.norm_stats["single_use_temporaries_inlined"] = sum(normalise.inline_single_use_temps(t) for t in trees.values())
             # inlining a temporary can leave a loop body that is a plain accumulation again (and vice versa): second round
             self.norm_stats["accumulator_loops_folded"] += sum(normalise.fold_accumulator_loops(t) for t in trees.values())
+            self.norm_stats["single_use_temporaries_inlined"] += sum(normalise.inline_single_use_temps(t) for t in trees.values())
+            self.norm_stats["literal_iterations_unrolled"] = sum(normalise.unroll_literal_iterations(t) for t in trees.values())
             self.norm_stats["single_use_temporaries_inlined"] += sum(normalise.inline_single_use_temps(t) for t in trees.values())
             self.norm_stats["tails_duplicated_into_branches"] = sum(normalise.duplicate_tail_into_branches(t) for t in trees.values())
         self._index()
